@@ -142,6 +142,20 @@ Proof.
   - vm_compute. reflexivity.
 Qed.
 
+(* non-vacuity for cache configurations without a positive default expiry (NoExpire = -1, other negatives, 0):
+   the DefaultExpire TTL kind (Set(k,v,0), SetDefault = OSet k v defttl, SetIfAbsent/Replace(...,0)) stores
+   WITHOUT expiry and the entry survives sweeps; all theorems above quantify over every defttl : Z *)
+Example C12_nonvacuous_nonpositive_default :
+  let tops d := [(1000, OSet 1 10 0); (1010, OSet 2 11 d); (1020, OSetIfAbsent 3 12 0); (1030, OSet 4 13 40);
+                 (1040, OReplace 4 14 0); (5000, OSweep); (5010, OExport)] in
+  forall d, In d [-1; -5000000; 0] ->
+  snd (mrun (f64r 256) d st0 (tops d))
+  = [OutUnit; OutUnit; OutBool true; OutUnit; OutBool true; OutUnit;
+     OutExport [(1, (10, 0)); (2, (11, 0)); (3, (12, 0)); (4, (14, 0))]].
+Proof.
+  cbv zeta. intros d [<-|[<-|[<-|[]]]]; vm_compute; reflexivity.
+Qed.
+
 (* Load onto an arbitrary cache (D32 repaired): every key of the data whose entry is not expired at the load
    instant holds exactly the loaded (value, deadline), every other key is unchanged, and the index invariant
    is kept (so C12_untimed_survive / C12_sweep_exact apply to loaded entries as to any other) *)
